@@ -230,7 +230,8 @@ def oracle_history(chk, cfg, ops, record=True):
                         "stream by %.3g (scale %.3g)" % (nx, float(err.max()), float(scale.max())), i)
             # HOW the innovation is drawn (the model: one block of nx normals per add_row) is a correspondence matter; the
             # property-level consequence — the row is A·Z + B·b with b from the injected stream — is the "row" check above
-            if (g.log[nlog:] != [("normal", nx)] or g.bit_generator.state != ref.bit_generator.state) and not stream_broke:
+            if (g.log[nlog:] not in ([("normal", nx)], [("standard_normal", nx)]) or g.bit_generator.state != ref.bit_generator.state) \
+                    and not stream_broke:         # normal(0, 1, n) and standard_normal(n) take the same values from the same stream
                 stream_broke.append(1)
                 chk.broke("correspondence", "add_row drew %r from the injected generator / left it at another position than one "
                           "block of %d normals further (model: pos_inv, add_uses_fresh_block)  %s op %d"
@@ -699,7 +700,7 @@ def correspondence(chk, n_ids, n_hist, maxn, all_sizes):
             chk.count("corr:ids:%s" % ctx["vk"])
             nadd = ops.count("a")
             total = sum(c for (_, c) in ctx["drew"])
-            if pos != total or any(nm != "normal" for nm, _ in ctx["drew"]) or not ctx["pos_ok"] \
+            if pos != total or any(nm not in ("normal", "standard_normal") for nm, _ in ctx["drew"]) or not ctx["pos_ok"] \
                     or [c for _, c in ctx["drew"]] != [nx] * nadd:
                 chk.broke("correspondence", "generator consumption: model position %d (= %d add_row × %d), implementation drew "
                           "%r, stream position as predicted: %s; %s" % (pos, nadd, nx, ctx["drew"][:6], ctx["pos_ok"], what))
